@@ -940,6 +940,13 @@ def gen_aln_model(rng):
             if m.sites[j][0] + 0.5 < m.L:
                 m.sites[j] = (m.sites[j][0] + 0.5,) + m.sites[j][1:]
                 m.tags.add("non-discrete-genome")
+    if rng.random() < 0.12:
+        # halve every coordinate: usually a non-discrete genome (positions printed with 17 decimals in nexus)
+        m.L /= 2
+        m.edges = [(l / 2, r_ / 2, p, c, md) for l, r_, p, c, md in m.edges]
+        m.sites = [(x / 2,) + rest for x, *rest in m.sites]
+        m.sites = [tuple(s_) for s_ in m.sites]
+        m.tags.add("coordinates-halved")
     r = rng.random()
     if r < 0.35:
         m.refseq = {"data": "".join(rng.choice("ACGTacgtN-") for _ in range(L))}
@@ -1217,6 +1224,12 @@ def check_nexus(ctx, rng, ts, m, kw, detail):
         return
     ctx.feature("nexus:defined")
     ctx.count("nexus-parsed")
+    if it and len(trefs) > 1:
+        ctx.feature("nexus:multi-tree")
+    if it and not discrete:
+        ctx.feature("nexus:non-discrete-positions")
+    if ia:
+        ctx.feature("nexus:with-data-block")
     lines = [ln.strip() for ln in text.split("\n")]
     if lines and lines[-1] == "":
         lines.pop()
